@@ -7,11 +7,16 @@
 // are valid as given. Each is built with compact.BuildInMemory, loaded with
 // compact.World.Merge and compared with the reference world: lookup by ID,
 // tags with value kinds, geometry, members, locations and EachFeature.
+//
+// Appended after the menu product: the multi-polygon area family (family.go) —
+// areas of 2..4 polygons, each polygon independently an explicit lat/lng
+// polygon (with or without a hole) or one given by 1-2 path references (outer +
+// hole), in every order, with the referenced paths in one or several
+// namespaces — checked with the same oracle.
 package main
 
 import (
 	"fmt"
-	"os" // DEVONLY
 	"sort"
 	"strings"
 
@@ -24,9 +29,12 @@ func main() {
 	slots := wk.FeatureMenu()
 	kit.Main(&kit.Check{
 		ID: "C01", Level: "exploration",
-		Rule: "every choice of one variant per menu slot (worldkit.FeatureMenu) x ID scheme whose features are all valid as given; non-trivial = at least one feature; distinct by canonical spec. Oracle: reference world built from the spec (has/feat/loc/each sections: tags with kinds, E7 points, path references and points, polygons as vertex loops, members and roles).",
-		Assumptions: []string{"valid = worldkit.ValidSubset keeps every feature unchanged (checked against the in-memory world by the wkself self-test)", "polygon loops compared up to rotation; points at E7 precision"},
-		QuickDeadline: 150e9, Chunk: 32,
+		Rule:        "(1) every choice of one variant per menu slot (worldkit.FeatureMenu) x ID scheme whose features are all valid as given; non-trivial = at least one feature; distinct by canonical spec. (2) appended after (1), simplest-first: the multi-polygon area family (checks/c01/family.go) — one area of k polygons for every sequence of polygon kinds (E explicit lat/lng loop, R1 one path reference, R2 two path references outer+hole, EH explicit loop with hole; all kinds independent per position, so every order and every area geometry encoding: references / lat-lngs / mixed with 1 and with 2+ referenced polygons), x alone or followed by a second area listing the same polygons reversed (sharing the paths), x referenced paths closed over point references or over lat/lngs, x path namespace pattern (all in the scheme's path namespace, alternating per path, alternating per polygon, three namespaces), x path ID values ascending or descending in polygon order, x ID scheme; all counter-clockwise and valid as given (a family world ValidSubset does not keep unchanged is reported as harness error); every world non-trivial, listed once per distinct canonical spec. Oracle for both: reference world built from the spec (has/feat/loc/each sections: tags with kinds, E7 points, path references and points, per polygon its vertex loops and the IDs of its paths in order, members and roles), absent IDs of every type included.",
+		Assumptions: []string{"valid = worldkit.ValidSubset keeps every feature unchanged (checked against the in-memory world by the wkself self-test)", "polygon loops compared up to rotation; points at E7 precision", "the polygon of path references is the s2 polygon of the loops of the referenced closed paths (outer and hole both counter-clockwise, hole nested)"},
+		// The quick deadline is only a cap for a heavily loaded (shared) machine: 16 unloaded cores
+		// need well under a minute. The family comes last in the space, so a run cut short by the
+		// deadline would silently skip it; hence the generous cap.
+		QuickDeadline: 1800e9, Chunk: 32,
 		Build: func(tier string) (kit.Space, string) {
 			rad := wk.TierRadices(slots, tier)
 			order := []int{0, 2, 6} // quick: osm, custom-2^63 ('/' namespaces, top-bit values), mixed-ns
@@ -38,9 +46,6 @@ func main() {
 			n := kit.Product(rad)
 			fam := familyCases(tier, order)
 			menuCases := n * int64(ns)
-			if os.Getenv("C01_DEV_FAMILY_ONLY") != "" { // DEVONLY
-				menuCases = 0 // DEVONLY
-			} // DEVONLY
 			return kit.FuncSpace{N: menuCases + int64(len(fam)), F: func(i int64) kit.Result {
 				var r kit.Result
 				if i >= menuCases {
